@@ -37,9 +37,20 @@ Bounded stand-in, two parts.
     the created container and nothing else changes.  Sets as P are out of scope
     (a set member has no value to resolve to).
 
+A call that raises something other than a YAMLPathException is C15's matter: it is
+counted (out_of_scope "C15:...") and the C09 clauses are still checked; it becomes a C09
+witness only when a clause of the statement fails as well (e.g. set_value on a document
+that contains a set anywhere raises KeyError from Processor._update_node.recurse after
+the tail has been created completely - observed, counted, not a C09 witness).
+
 Witness keys:
-  C09/purity/<api>/<what changed>/<collector operators in the path | plain>
-  C09/creation/<api>/<clause>/<kind of P>-<kind of first tail segment>[...]
+  C09/purity/<api>/<what changed>/<plain | collector() | collector+& | collector-subtraction>
+      what changed: key-removed, key-added, key-order-changed, seq-grew, seq-shrank, value-changed,
+      anchor-changed, identity-changed, node-replaced, ...; for the optional-match call the additive
+      changes are one class, missing-branch-created
+  C09/creation/<api>/<clause>[:<detail>][/<kind of P>-<kind of the first missing segment>]
+      clause: raised, does-not-resolve, created-part-differs[:padding-length], frame-changed,
+      uncreatable-document-changed, uncreatable-no-error, null-prefix:{tail-not-created,null-overwritten}
 """
 import itertools
 import json
